@@ -1,7 +1,10 @@
 #!/bin/bash
 # usage: seed_confirm.sh <prop> <k> : confirm a seeded change in its scratch worktree and file it under /verif/seeded
 export GOFLAGS=-mod=mod GOPROXY=off GOSUMDB=off GOTOOLCHAIN=local
-P=$1; K=$2; W=/tmp/seed/$P; O=/tmp/seed/out/$P; ID=${P}_s$K; D=/verif/seeded/$ID
+# optional 3rd argument: round (2 -> outputs under /tmp/seed/out2, ids <P>_r2s<k>)
+P=$1; K=$2; RND=${3:-1}; W=/tmp/seed/$P
+if [ "$RND" = "1" ]; then O=/tmp/seed/out/$P; ID=${P}_s$K; else O=/tmp/seed/out$RND/$P; ID=${P}_r${RND}s$K; fi
+D=/verif/seeded/$ID
 cd $W || exit 1
 git checkout -q -- "*.go" ":!*_verif.go" 2>/dev/null; rm -f zz_demo_test.go
 cp $O/demo${K}_test.go zz_demo_test.go
